@@ -985,6 +985,12 @@ func (s *PrintCtx) pcAppendQuotedStringValue(str string) {
 }
 
 func (s *PrintCtx) appendQuotedString(str string) {
+	if s.jsonMode { // Go-syntax escapes (\a \v \xHH \UXXXXXXXX) are not JSON
+		s.pcAppendByte('"')
+		s.appendEscapedJSONString(str)
+		s.pcAppendByte('"')
+		return
+	}
 	s.PreAlloc(len(str)*2 + 2)
 	s.buf = appendQuotedWith(s.buf, str, '"', false, false)
 }
@@ -1148,11 +1154,7 @@ func bsearch32(a []uint32, x uint32) int {
 func (s *PrintCtx) pcAppendStringKey(str string) {
 	s.preCheck()
 	if s.jsonMode {
-		// s.WriteString(strconv.Quote(str))
-		// s.Grow(2 + len([]byte(str)))
-		s.checkerr(s.WriteByte('"'))
-		_, _ = s.WriteString(str)
-		s.checkerr(s.WriteByte('"'))
+		s.appendQuotedString(str)
 	} else {
 		_, _ = s.WriteString(str)
 	}
@@ -1310,7 +1312,11 @@ func (s *PrintCtx) appendError(err error) {
 func (s *PrintCtx) appendValue(val any) {
 	switch z := val.(type) {
 	case nil:
-		s.pcAppendStringValue("<nil>")
+		if s.jsonMode {
+			s.pcAppendStringValue("null")
+		} else {
+			s.pcAppendStringValue("<nil>")
+		}
 
 	case ObjectSerializer:
 		// pc.useColor = !s.noColor
